@@ -52,6 +52,10 @@ CLAIMED = {
     text="Both definitions of SafeUnpickler.find_class are verified from source for every (module, name): a normal return implies membership in an allow-list pinned in the contract, nothing is imported or looked up off the list, everything else raises UnpicklingError; loads() is shown to run load() on the restricted subclass; get_unpickler is secure unless the flag is set; call sites and the default setting are syntactic obligations. The step to 'no byte string reaches a global' is the assumed contract A-PICKLE on CPython, cross-checked by a bounded opcode-route sweep.",
     note="A-PICKLE (CPython's Unpickler routes every global through find_class; bounded sweep of opcode routes x loaded-module attributes, labelled bounded, not counted as proved); strings as opaque atoms with exact literal equality; A-ENGINE, A-SMT",
     tech=TECH + "; pinned allow-list postcondition; bounded stand-in only for the dependency contract A-PICKLE"),
+  'C14': dict(
+    text="TaggedSeries.encode and WhisperDatabase._getFilesystemPath / getFilesystemPath are verified from source to compose the string operations so that the resulting path is confined to the data directory for every name, tagged or not, for both TAG_HASH_FILENAMES values: untagged names lose every '.' and any leading separator, tagged names start with '_tagged', the hash slices and a dot-free rendering; determinism and injectivity on well-formed untagged names are obligations / a lemma.",
+    note="the str methods, sha256 hexdigest and os.path.join enter as axioms R1-R5 (A-STR), validated together with the real functions end to end by an exhaustive bounded stand-in over a 7-symbol alphabet (labelled bounded, not counted as proved); symlinks inside the data directory are out of scope; CeresDatabase is not covered (ceres not installed; for Ceres a name starting with '/' is not stripped by encode(sep='.')); A-ENGINE, A-SMT",
+    tech=TECH + "; string operations axiomatised at predicate level, bounded validation of the axioms"),
   'C15': dict(
     text="Batching is verified from source (takeSomeFromQueue prefix contract, sendQueued writes exactly that batch, the line client emits one line per datapoint in order, the pickle client one frame carrying the batch with protocol 2) and the emitted line is characterised structurally (\"%s %s %d\" of name, value text, timestamp; value text = %.10f with trailing zeros stripped for floats, %d otherwise), which is the receivers' C01 precondition. The numeric clause (value within 5e-11 / one ulp) is decided only by a bounded stand-in on the real client/listener pair.",
     note="the decimal text round trip is outside z3/cvc5's theories: bounded (boundary magnitudes, neighbours, +-inf, ints, seeded random doubles), labelled bounded and not counted as proved; one known finding (5e-11 bound exceeded by < 1 ulp after re-parsing); A-STR, A-PICKLE; protobuf not covered; A-ENGINE, A-SMT",
@@ -60,6 +64,10 @@ CLAIMED = {
     text="RelayRulesRouter.getDestinations (nested loops, ghost source-index witnesses) is verified from source to yield exactly the configured destinations of the matching rules, in file order, up to and including the first matching rule not marked continue; loadRelayRules is verified with an ordered-filter invariant (pattern rules in file order built from their own section, exactly one default rule last, the documented configuration errors otherwise); AggregatedConsistentHashingRouter.getDestinations is verified to return exactly the union of the hash destinations of the aggregate names (or of the metric itself when no rule applies), from which co-location is a lemma.",
     note="rule.matches / get_aggregate_metric are uninterpreted functions of (rule, key) (regex semantics not modelled); hash_router.getDestinations is an uninterpreted function of the name (C05 determinism); A-CONF for the parser; parseDestinations and regex compilation are opaque functions of the section text; A-ENGINE, A-SMT",
     tech=TECH + "; nested loop invariants with ghost witnesses, ordered-filter invariant"),
+  'C18': dict(
+    text="TaggedSeries.format is verified from source to be a function of the tag map (two iteration orders of the same map give the same text, because the rendered list goes through sorted()), path is format of the tags, validateTagAndValue rejects exactly the documented violations, and both processors hand on parse(name).path when the parser accepts a name and the received name unchanged when it rejects it. Idempotence, order independence at the parse level and agreement of the two syntaxes are decided only by a structured exhaustive bounded stand-in on the real parser; it reports one known finding (names that look like OpenMetrics).",
+    note="A-LIB (sorted is a function of the multiset); the parser (split / slicing / re.match chains) is outside the solvers' reach: bounded, labelled bounded, not counted as proved; known finding D11 recorded with its witness; A-ENGINE, A-SMT",
+    tech=TECH + "; bounded native enumeration for the parse-level clauses"),
   'C19': dict(
     text="loadStorageSchemas and loadAggregationSchemas are verified from source with an ordered-filter loop invariant: the returned list is exactly the sections, in file order, that have the required keys (built from their own options), followed by the default schema; the writer's create section is verified to pass create() the retentions and (xFilesFactor, method) of the first matching schema in list order; parseRetentionDef is verified against a pinned unit table and the duration/precision formula; Archive truncation and the documented defaults [(60,10080)], (None,None) are obligations.",
     note="A-CONF (OrderedConfigParser semantics; its read() does file I/O and is not under contract); string functions (strip/split/isdigit/int/re.match and groups) and regex matching are uninterpreted (A-STR), so what is proved is how the code combines them; schema.matches in the writer is an uninterpreted predicate; A-ENGINE, A-SMT",
